@@ -251,7 +251,11 @@ def gen_case(rnd, kind):
             a_, b_ = e[2] if g.pct(50) else (e[2][1], e[2][0])
             rel = g.choice([("BV_ULT", (), (a_, b_)), ("NOT", (), (("EQUALS", (), (a_, b_)),)),
                             ("EQUALS", (), (("BV_ADD", (), (a_, ("CONST", (BV(2), 1), ()))), b_))])
-            conj.append((g.choice(["FORALL", "EXISTS"]), (a_[1],), (rel,)))
+            q_ = (g.choice(["FORALL", "EXISTS"]), (a_[1],), (rel,))
+            # ... as a conjunct, or below other operators (a Boolean ITE, an implication, an equivalence, a negation)
+            p_, r_ = g.term(BOOL, 1), g.term(BOOL, 1)
+            conj.append(g.choice([q_, q_, ("ITE", (), (p_, q_, r_)), ("ITE", (), (p_, r_, q_)), ("OR", (), (q_, p_)),
+                                  ("IMPLIES", (), (p_, q_)), ("IFF", (), (q_, p_)), ("NOT", (), (("AND", (), (p_, q_)),))]))
         if g.pct(30):
             # a constant that is in an equality class with symbols and also occurs where only a constant may stand
             # (the exponent of a power): the constant is what gets propagated, never replaced by a symbol
